@@ -38,7 +38,9 @@ func TestGocvWitnessC16StaleRoot(t *testing.T) {
 
 	oldKey := func(g, i int) Path { return Path(fmt.Sprintf("%02x%04x0a", g, i)) }
 	newKey := func(g, i int) Path { return Path(fmt.Sprintf("%02x%04x0b", g, i)) }
-	val := func(k Path) *SecureSerializableValue { return &SecureSerializableValue{Buffer: []byte("v" + string(k))} }
+	val := func(k Path) *SecureSerializableValue {
+		return &SecureSerializableValue{Buffer: []byte("v" + string(k))}
+	}
 
 	for round := 0; round < rounds; round++ {
 		mpt := NewMerklePatriciaTrie(NewMemoryNodeDB(), Sequence(0), nil, statecache.NewEmpty())
